@@ -38,6 +38,19 @@ CLAIMED = {
             "iterative-correction step.", "4/C11"),
     "C12": ("Cooler.matrix(balance=...) dense/sparse/pixel output on symbolic pixels, windows and weight columns (exact reals + NaN flag): value == raw * "
             "f(w[row]) * f(w[col]) with f = id or reciprocal (default for KR/VC/VC_SQRT names), NaN iff either weight is NaN; missing column => ValueError.", "4/C12"),
+    "C13": ("ordered and unordered creation from free (unconstrained) symbolic records or with an iterator failure before a solver-chosen chunk: error <=> "
+            "some chunk is invalid; afterwards the destination (new file / new group / existing non-cooler group / nested group) is not recognised and not "
+            "listed, and a neighbouring collection with symbolic contents plus the file attributes are bit-identical in the raw store.", "4/C13"),
+    "C14": ("chroms()/bins()/pixels() selectors sliced with symbolic bounds and column subsets, and annotate() on arbitrary pixel subsets against whole / "
+            "selector / partial bin tables (both strategy branches, enum and integer chromosome ids), on coolers with symbolic table contents.", "4/C14"),
+    "C15": ("all sequences of 2 (thorough: 3) operations out of create(a/w)/cp/mv/ln hard/soft/external/overwrite over two files are executed on the "
+            "in-memory HDF5 model with symbolic contents against a reference namespace model; every explored path is replayed on real h5py.", "4/C15"),
+    "C17": ("create_scool with 1-3 cells and symbolic per-cell tables / per-cell bin columns: each cell reads back its own table, bins columns are the "
+            "root's objects (hard links), listing == names, recognised as scool.", "4/C17"),
+    "C18": ("rename_chroms with every subset renamed, chains of two renamings, enum and integer encodings, symbolic contents: names substituted in order "
+            "(same object and reopened), raw store otherwise unchanged, queries by new name == by old name.", "4/C18"),
+    "C19": ("parse_humanized executed from source with symbolic digits and a bit-precise binary64 encoding of float()/*/int() (exact for Fraction); "
+            "parse_region_string on a grammar of 24 shapes; format->parse round trip; parse_region bounds on unbounded integers; parse_cooler_uri by CrossHair.", "4/C19"),
     "C20": ("binnify is decided for symbolic chromosome lengths (width concrete per case), get_binsize/get_chromsizes for every valid bin table of each "
             "layout with symbolic widths: a reported size implies every bin has the fixed form.", "4/C20"),
     "C03": ("For every stored matrix with n<=3 bins / K<=2 pixels (thorough n<=4,K<=3), every window, both storage modes, dense and sparse output "
